@@ -80,6 +80,6 @@ package weighted_sum
 
 // ---- importance of a criterion for this method (C15): its weight times the values cumulated over the considered alternatives
 //@ func (*WeightedSumBiasListener).RankCriteriaAscending$1
-//@   property C15 C07
+//@   property C15 C07 C16 C18 C19
 //@   requires wParams.weightedCriteria != nil
 //@   ensures [weight_times_value] exists k int :: 0 <= k && k < len(*wParams.weightedCriteria) && (*wParams.weightedCriteria)[k].Id == criterion && result == (*wParams.weightedCriteria)[k].Weight * value
